@@ -1203,6 +1203,37 @@ func c07JudgePipe(c *Ctx, p *c07Pipe, class string) {
 			}
 		}
 	}
+	// all hypotheses of Props.C07.program_sound_partial on the accepted program (its conclusion is what
+	// the Tier-A runs of c07NestedRuntime and of the run-time half check on the real code)
+	{
+		top := &c07PStm{id: p.name, callee: &c07PCallee{name: p.name, isStage: false, params: p.ins, outs: p.outs}}
+		for _, in := range p.ins {
+			top.binds = append(top.binds, c07NamedBind{in.id, c07Bind{e: c07Witness(in.t)}})
+		}
+		parts := []string{fmt.Sprint(len(chain))}
+		for _, q := range chain {
+			parts = append(parts, q.enc())
+		}
+		parts = append(parts, top.enc(), fmt.Sprint(len(chain)+1))
+		rep := c.Drv.Ask("C07.prog", strings.Join(parts, " "))
+		f := strings.Fields(rep)
+		if len(f) < 3 {
+			r.note("bad reply of C07.prog: %q", rep)
+		} else {
+			r.hist("prog_" + f[1])
+			r.hist("prog_" + f[2])
+			if f[1] != "progOk=true" {
+				r.hist("prog_hyp_fails_" + f[len(f)-1])
+			}
+			if f[0] != "accepted=true" {
+				r.violate(Violation{Kind: "correspondence", Key: "C07:prog:accepted", What: "a program model and compiler accept pipeline by pipeline is not accepted as a whole program: " + rep,
+					Input: in, Broken: "program_sound_partial (progOk)"})
+			} else if f[2] != "fits=true" {
+				r.violate(Violation{Kind: "correspondence", Key: "C07:prog:fits", What: "the nesting depth of a generated program exceeds the number of its pipelines + 1: " + rep,
+					Input: in, Broken: "program_sound_partial (fits)"})
+			}
+		}
+	}
 	r.hist("pipe_callgraph_checked")
 	if err := c07CallGraphPaths(src+p.topCall(), paths); err != nil {
 		if strings.Contains(err.Error(), "cannot be bound inside an untyped map") || strings.Contains(err.Error(), "cannot be assinged to untyped map: contains reference") {
